@@ -263,6 +263,7 @@ theorem vector_sizes_text :
       ("SimulationAlgorithmGraphBase.hpp", "mesh_kd_out", "n_meshes"),
       ("SimulationAlgorithmGraphBase.hpp", "mesh_kd_in", "n_meshes"),
       ("SimulationAlgorithmGraphBase.hpp", "mesh_kd_out[i]", "n_species*mesh_neighbor_n[i]"),
+      ("SimulationAlgorithmGraphBase.hpp", "mesh_kd_in[i]", "n_species*mesh_neighbor_n[i]"),
       ("Euler3D.hpp", "mesh_dxdt", "n_species*n_meshes"),
       ("EulerGraph.hpp", "mesh_dxdt", "n_species*n_meshes"),
       ("TauLeap3D.hpp", "mesh_nr", "n_reactions*n_meshes"),
